@@ -8,6 +8,7 @@ import (
 	"bytes"
 	"crypto/tls"
 	"fmt"
+	"net/http"
 	"os"
 	"strings"
 	"testing"
@@ -906,6 +907,17 @@ var c03Seams = []c03Seam{
 	{"http-post", func(v *vRouter) c03Client {
 		h := v.newHTTPHandler()
 		return &c03HTTP{do: func(w []byte) *httpResult { return vDoHRequest(h, "POST", w, vClientV4.String(), nil) }}
+	}},
+	{"http-post-chunked", func(v *vRouter) c03Client {
+		// a POST whose length is not declared (HTTP/1.1 chunked, HTTP/2 without content-length): net/http reports ContentLength -1
+		h := v.newHTTPHandler()
+		return &c03HTTP{do: func(w []byte) *httpResult {
+			return vDoHRequest(h, "POST", w, vClientV4.String(), func(r *http.Request) {
+				r.ContentLength = -1
+				r.TransferEncoding = []string{"chunked"}
+				r.Header.Del("Content-Length")
+			})
+		}}
 	}},
 	{"fasthttp-get", func(v *vRouter) c03Client {
 		h := v.newFastHTTPHandler()
